@@ -91,6 +91,10 @@ def histories(rng, n):
     fixed = [
         ('repeat-single', lambda: [run_of(rng, ['normal.log'], True),
                                    run_of(rng, ['normal.log'], True, False)]),
+        ('repeat-single-no-global',
+         lambda: [run_of(rng, ['normal.log'], False),
+                  run_of(rng, ['normal.log'], False, False),
+                  run_of(rng, ['normal.log', 'recent.log'], False)]),
         ('repeat-single-allold',
          lambda: [run_of(rng, ['allold.log'], True),
                   run_of(rng, ['allold.log'], True, False),
